@@ -29,6 +29,15 @@ class S(System):
                 act()
 
 
+class SOwnCleanup(S):
+    """a system class with its own clean_up() bookkeeping that does not chain to the base class (nothing in the library
+    requires it to): removing it BY ID still removes it"""
+    __slots__ = ['cleaned']
+
+    def clean_up(self):
+        self.cleaned = True
+
+
 class SysId(str):
     """identifiers that are strings without being exactly `str` (str-based enum members, numpy.str_, ... behave alike)"""
 
@@ -36,7 +45,8 @@ class SysId(str):
 def _queue(m, ps, frequency=1):
     """I1 pre-state built through the API (registration order = index order)."""
     mk = SysId if hx.P.get('str_ids') else str
-    ss = [S(mk("s%d" % i), m, ps[i], frequency) for i in range(len(ps))]
+    cls = SOwnCleanup if hx.P.get('own_cleanup') else S
+    ss = [cls(mk("s%d" % i), m, ps[i], frequency) for i in range(len(ps))]
     for s in ss:
         m.systems.add_system(s)
     return ss
@@ -60,6 +70,7 @@ def midstep(p0: int, p1: int, p2: int, p3: int, actor: int, target: int, pn: int
     removed = []            # (system, position of the remover in `before`)
     added = []
     readded = []
+    errors = []
     regseq = list(ss)       # the systems registered right now, in the order of their (latest) registration
 
     def mk(kind, who, tgt, prio, tag):
@@ -88,6 +99,18 @@ def midstep(p0: int, p1: int, p2: int, p3: int, actor: int, target: int, pn: int
                     removed.append(tgt)
                     regseq.remove(tgt)
                     new = S(tgt.id, m, prio)
+                    m.systems.add_system(new)
+                    added.append(new)
+                    regseq.append(new)
+            elif kind == 'add_taken':               # "make sure it exists": register a NEW object under the target's id and
+                new = S(tgt.id, m, prio)            # rely on the documented KeyError when the id is taken
+                if m.systems.systems.get(tgt.id) is not None:
+                    try:
+                        m.systems.add_system(new)
+                        errors.append("a second system object was accepted under the taken id %r" % (tgt.id,))
+                    except KeyError:
+                        hx.reach('refused')
+                else:
                     m.systems.add_system(new)
                     added.append(new)
                     regseq.append(new)
@@ -122,6 +145,8 @@ def midstep(p0: int, p1: int, p2: int, p3: int, actor: int, target: int, pn: int
         m.execute(2)                              # both timesteps requested with ONE call
     else:
         m.execute()
+    if errors:
+        return hx.end(hx.fail(errors[0]))
     cut = len([t for t in m.when if t == 0])
     log = list(m.log[:cut])
     log_second = list(m.log[cut:])
@@ -207,6 +232,10 @@ def obligations(tier):
     parts += [{"n": 2, "kinds": [k], "other_model": True} for k in ("self", "remove", "replace")]
     parts += [{"n": 2, "kinds": ks, "sparse": True} for ks in (["add"], ["replace"], ["add", "add"])]
     parts += [{"n": 2, "kinds": [k], "str_ids": True} for k in ("self", "remove", "replace")]
+    parts += [{"n": 2, "kinds": [k], "own_cleanup": True} for k in ("remove", "replace")]
+    parts += [{"n": 2, "kinds": ["add_taken"]}, {"n": 3, "kinds": ["add_taken"]}, {"n": 2, "kinds": ["remove", "add_taken"]}]
+    if tier != "quick":
+        parts += [{"n": 3, "kinds": ["remove", "add_taken"]}]
     if tier != "quick":
         parts += [{"n": 3, "kinds": [a, b], "multi": True} for a, b in two] + [{"n": 3, "kinds": [a, b], "other_model": True} for a, b in two]
 
@@ -217,8 +246,10 @@ def obligations(tier):
             out.append("removed")
         if ks == ["readd"] or ks == ["readd", "readd"]:
             out.append("readded")
-        if "add" in ks or "replace" in ks:
+        if "add" in ks or "replace" in ks or ks == ["remove", "add_taken"]:
             out.append("added")
+        if "add_taken" in ks:
+            out.append("refused")
         return tuple(out)
-    return [X("midstep", midstep, parts=parts, labels=("removed", "added", "readded"), labels_for=lab, timeout=600, group=1,
+    return [X("midstep", midstep, parts=parts, labels=("removed", "added", "readded", "refused"), labels_for=lab, timeout=600, group=1,
               encoded=enc, bounds={"n": "1..%d" % ns[-1]})]
